@@ -25,10 +25,15 @@ fn leaves() -> Vec<RefValue> {
     vec![RefValue::Null, RefValue::Bool(true), RefValue::Bool(false), RefValue::Num("0".into()), RefValue::Num("-1.50e+3".into()),
          RefValue::Str("".into()), RefValue::Str("a\"\\/".into()), RefValue::Str("\u{1}\u{1f}\u{8}\u{c}\n\r\t".into()), RefValue::Str("\u{7f}\u{2028}\u{1F600}\u{e9}".into()),
          // every control character once (each low nibble of the \u00XX form, the one without a short form between \n and \f)
+         RefValue::Str("\u{e9}\"".into()), RefValue::Str("\u{1F600}\u{20ac}\u{1}".into()),
          RefValue::Str("abcdefgh\u{b}".into()), RefValue::Str((0u8..0x20).map(|b| b as char).collect::<String>())]
 }
 // (keys on which Rust's `Debug` / `escape_default` renderings differ from the JSON escapes are there on purpose)
-const KEYS: [&str; 8] = ["", "k", "k", "\"\u{e9}\n", "\u{0}\u{1f}", "\u{7f}\u{2028}'", "\u{feff}e\u{301}", "\u{ffff}\u{1F600}\\"];
+// (and keys in which the extra BYTES of multi-byte characters equal the extra CHARACTERS of the escapes, so that
+//  "printed size == byte length + 2" holds although the key needs escaping: 2-byte + one short escape, 3-byte +
+//  two, 4-byte + three, 4-byte + 3-byte + one \u00XX escape)
+const KEYS: [&str; 13] = ["", "k", "k", "\"\u{e9}\n", "\u{0}\u{1f}", "\u{7f}\u{2028}'", "\u{feff}e\u{301}", "\u{ffff}\u{1F600}\\",
+    "\u{e9}\"", "\u{20ac}\n\t", "\u{1F600}\\\"\r", "\u{1F600}\u{20ac}\u{1}", "a\u{e9}b\u{8}"];
 
 fn values(depth: usize, breadth: usize) -> Vec<RefValue> {
     let mut cur = leaves();
